@@ -139,7 +139,7 @@ ProbeText == <<
   "a1 2>/dev/null || echo \"a1:norun\"",
   "shopt -o errexit nounset noglob allexport pipefail || true",
   "shopt nullglob expand_aliases || true",
-  "echo \"$BASE\"/sub1/* \"$BASE\"/nomatch*",
+  "(cd \"$BASE\" && echo sub1/* nomatch*)",
   "trap",
   "pwd",
   "echo \"$PWD ${OLDPWD-U}\"",
@@ -156,8 +156,8 @@ ProbeSet == {"P01", "P02", "P03", "P04", "P05", "P06", "P07", "P08", "P09", "P10
 
 VarItem(s, n) == Item("decl", <<n, s.vars[n].val, B(s.vars[n].x), B(s.vars[n].r)>>)
 GlobWords(s) ==
-  IF "noglob" \in s.opts THEN <<"D0/sub1/*", "D0/nomatch*">>
-  ELSE <<"D0/sub1/x1", "D0/sub1/x2">> \o (IF "nullglob" \in s.opts THEN <<>> ELSE <<"D0/nomatch*">>)
+  IF "noglob" \in s.opts THEN <<"sub1/*", "nomatch*">>
+  ELSE <<"sub1/x1", "sub1/x2">> \o (IF "nullglob" \in s.opts THEN <<>> ELSE <<"nomatch*">>)
 OptLine(s, names) == [i \in 1..Len(names) |-> IF names[i] \in s.opts THEN "on" ELSE "off"]
 
 (* Effect of one statement on the state, status in .cur; `exit` sets .exiting. *)
